@@ -88,6 +88,21 @@ def check_text(c, st):
     back = pe.to_string()
     if back != text:
         return ('to_string-differs:' + shape, 'to_string() gives %r for %r' % (back, text))
+    # the caller edits what it was handed (redacting paths, renumbering...); parsing the same text again starts afresh
+    if pe.frames:
+        for fr_ in pe.frames:
+            fr_['filepath'] = '<redacted>'
+            fr_['lineno'] = '0'
+        del pe.frames[1:]
+    pe.exc_msg = 'redacted'
+    try:
+        again = tb.ParsedException.from_string(text)
+        back2 = again.to_string()
+    except Exception as e:
+        return ('parse-raised:%s:second-time' % type(e).__name__, 'second from_string of %r raised %r' % (text, e))
+    if back2 != text or len(again.frames) != len(c['frames']):
+        return ('parse:result-shared-between-calls', 'after the caller edited the frames of an earlier result, parsing %r again '
+                'gives %r' % (text, back2))
     st.see(('text', text))
     st.count('text_cases')
     return None
@@ -137,7 +152,7 @@ def pkg_dir():
 
 
 LINKS = ['func', 'method', 'lambda', 'generator', 'exec', 'nested', 'staticmethod', 'listcomp', 'reraise-saved',
-         'reraise-in-except']
+         'reraise-in-except', 'genexpr-recursion']
 EXC_DEFS = '''
 class ModErr(Exception):
     pass
@@ -228,6 +243,10 @@ def build_module(c):
         elif link == 'reraise-in-except':
             src += ['def %s(x):' % fn, '    try:', '        return %s(x)' % prev, '    except Exception as exc:',
                     '        raise exc', '']
+        elif link == 'genexpr-recursion':
+            # recursion THROUGH a generator expression on one line: many consecutive frames share file and line but
+            # alternate between two function names (the interpreter abbreviates only identical frames)
+            src += ['def %s(x, n=4):' % fn, '    return sum(%s(x, n - 1) for _ in (0,)) if n else %s(x)' % (fn, prev), '']
         elif link == 'nested':
             src += ['def %s(x):' % fn, '    def inner(z):', '        return %s(z)' % prev, '    return inner(x)', '']
         else:   # exec'd code: frames without source
@@ -287,6 +306,8 @@ def check_live(c, st):
             linecache.clearcache()
             try:
                 ei0 = tbu.ExceptionInfo.from_exc_info(et, ev, tb)
+                if c.get('cold') == 'after-capture':
+                    linecache.clearcache()      # ... and the cache is dropped again between capturing and rendering
                 cold_frames = [(cp.module_path, cp.lineno, cp.func_name, str(cp.line or '').strip())
                                for cp in ei0.tb_info.frames]
                 cold_text = ei0.get_formatted()
@@ -418,7 +439,7 @@ def gen_live(r):
         c['rerun'] = False
         c['mem'] = r.random() < 0.7
         c['at_import'] = r.random() < 0.6
-        c['cold'] = r.random() < 0.7
+        c['cold'] = r.choice([False, True, True, 'after-capture', 'after-capture'])
     return c
 
 
